@@ -789,10 +789,9 @@ func SetupParts(p *Prog) {
 				if !f.Embedded() {
 					continue
 				}
+				// by value only: an embedded POINTER refers to an object of its own (it can be reached, kept
+				// alive and shared independently of the embedding struct)
 				ft := f.Type()
-				if pt, isP := ft.(*types.Pointer); isP {
-					ft = pt.Elem()
-				}
 				fn, isN := ft.(*types.Named)
 				if !isN || fn.Obj().Pkg() != pk.Types || fn.Obj().Exported() {
 					continue
